@@ -10,9 +10,13 @@ from _fakefile import FS, FStruct, BlobJoiner, Crash, Garbage, FBuf    # noqa: F
 import _fakefile
 from allmydata.storage import immutable as imm, mutable as mut, lease as lease_mod
 from allmydata.storage import immutable_schema, mutable_schema, lease_schema
+from allmydata.storage import server as server_mod
 from allmydata.storage.lease import LeaseInfo
 
-NOTES = list(_fakefile.NOTES)
+NOTES = list(_fakefile.NOTES) + [
+    "si_b2a/storage_index_to_dir (concrete storage index), HashedLeaseSerializer._hash_secret (blake2b) and "
+    "timing_safe_compare on concrete secret tokens: the real functions, executed with tracing switched off",
+]
 
 # ---- install the environment stand-ins (once per process) ---------------------------------------
 for _m in (imm, mut):
@@ -20,9 +24,22 @@ for _m in (imm, mut):
     _m.os = FS.os
     _m.struct = FStruct
 imm.fileutil = FS.fileutil
+server_mod.open = FS.open
+server_mod.os = FS.os
+server_mod.fileutil = FS.fileutil
 lease_mod.struct = FStruct
 immutable_schema.struct = FStruct
 mutable_schema.struct = FStruct
+
+# concrete-argument helpers run untraced (real functions, tracing off): base32 of the storage index,
+# blake2b of the secret tokens, the sha256d-based timing_safe_compare of tokens
+server_mod.si_b2a = _fakefile.untraced(server_mod.si_b2a)
+server_mod.storage_index_to_dir = _fakefile.untraced(server_mod.storage_index_to_dir)
+_real_hash_secret = lease_schema.HashedLeaseSerializer._hash_secret
+_hs = _fakefile.untraced(_real_hash_secret)
+lease_schema.HashedLeaseSerializer._hash_secret = classmethod(lambda cls, secret: _hs(secret))
+lease_mod.timing_safe_compare = _fakefile.untraced(lease_mod.timing_safe_compare)
+mut.timing_safe_compare = _fakefile.untraced(mut.timing_safe_compare)
 
 MSF = mut.MutableShareFile
 SF = imm.ShareFile
@@ -62,7 +79,7 @@ def hashed(version, secret):
     """What a container of the given schema version stores for a secret."""
     if version == 1:
         return secret
-    return lease_schema.HashedLeaseSerializer._hash_secret(secret)
+    return _hs(secret)
 
 
 def mlease_rec(owner, expiry, renew, cancel, nodeid=NODEID):
@@ -83,15 +100,13 @@ def mk_mutable(path, dl, elo, slots, extras, version=2, we=WE_GOOD, nodeid=NODEI
     Representation invariant (every state the code itself produces satisfies it):
       0 <= dl, 468 + dl <= elo <= 468 + MAX_SIZE, file size == elo + 4 + 92*len(extras).
     """
-    if len(slots) != 4:
-        raise hlib.HarnessError("need 4 slots")
-    pieces = [FStruct.pack(">32s20s32sQQ", MAGIC[version], nodeid, we, dl, elo)]
-    pieces.extend(slots)
-    pieces.append(ProvBuf.src("old", dl))
-    pieces.append(ProvBuf.src("stale", elo - DATA_OFFSET - dl))
-    pieces.append(FStruct.pack(">L", len(extras)))
-    pieces.extend(extras)
-    return FS.put(path, pieces, split=DATA_OFFSET)
+    head = [(FStruct.pack(">32s20s32sQQ", MAGIC[version], nodeid, we, dl, elo), 0, HEADER_SIZE)]
+    for r in slots:
+        head.append((r, 0, MLEASE))
+    tail = [("old", 0, dl), ("stale", 0, elo - DATA_OFFSET - dl), _fakefile.to_runs(FStruct.pack(">L", len(extras)))[0]]
+    for r in extras:
+        tail.append((r, 0, MLEASE))
+    return FS.put(path, head, tail, elo - DATA_OFFSET + 4 + MLEASE * len(extras), split=DATA_OFFSET, mkdirs=False)
 
 
 def mutable_inv(dl, elo):
@@ -102,14 +117,16 @@ def mk_immutable(path, dlen, leases, version=2, hdr_len=None):
     """An immutable container: header(version, saturated length, lease count), dlen data bytes ("old"), lease records."""
     if hdr_len is None:
         hdr_len = dlen if dlen < U32 - 1 else U32 - 1
-    pieces = [FStruct.pack(">LLL", version, hdr_len, len(leases)), ProvBuf.src("old", dlen)]
-    pieces.extend(leases)
-    return FS.put(path, pieces, split=0xc)
+    head = [(FStruct.pack(">LLL", version, hdr_len, len(leases)), 0, 0xc)]
+    tail = [("old", 0, dlen)]
+    for r in leases:
+        tail.append((r, 0, ILEASE))
+    return FS.put(path, head, tail, dlen + ILEASE * len(leases), split=0xc, mkdirs=False)
 
 
 def rec_values(st, pos, fmt):
     """Decode a record straight from the file state (harness-side observation, independent of the code under test)."""
-    return FStruct.unpack(fmt, st.peek(pos, FStruct.calcsize(fmt)))
+    return FStruct.unpack_runs(fmt, st.peek_runs(pos, FStruct.calcsize(fmt)))
 
 
 class Parent(object):
@@ -117,3 +134,102 @@ class Parent(object):
 
     def log(self, *a, **kw):
         return 0
+
+
+class Clock(object):
+    """`clock` of StorageServer / BucketWriter: seconds() and callLater() (timers recorded, fired by the harness)."""
+
+    def __init__(self, now=0):
+        self.now = now
+        self.timers = []
+
+    def seconds(self):
+        return self.now
+
+    def callLater(self, delay, fn, *a, **kw):
+        t = Timer(self, delay, fn, a, kw)
+        self.timers.append(t)
+        return t
+
+
+class Timer(object):
+    def __init__(self, clock, delay, fn, a, kw):
+        self.clock, self.delay, self.fn, self.a, self.kw = clock, delay, fn, a, kw
+        self.cancelled = False
+        self.called = False
+        self.resets = []
+
+    def active(self):
+        return not (self.cancelled or self.called)
+
+    def cancel(self):
+        if not self.active():
+            raise RuntimeError("AlreadyCancelled/AlreadyCalled")
+        self.cancelled = True
+
+    def reset(self, delay):
+        if not self.active():
+            raise RuntimeError("AlreadyCancelled/AlreadyCalled")
+        self.resets.append(delay)
+
+    def fire(self):
+        if not self.active():
+            raise hlib.HarnessError("firing an inactive timer")
+        self.called = True
+        self.fn(*self.a, **self.kw)
+
+
+SS = server_mod.StorageServer
+SHAREDIR = "/s/shares"
+INCOMING = "/s/shares/incoming"
+SI = b"\x00" * 16
+SI_DIR = server_mod.storage_index_to_dir(SI)          # "aa/aaaaaaaaaaaaaaaaaaaaaaaaaa"
+BUCKET = SHAREDIR + "/" + SI_DIR
+INBUCKET = INCOMING + "/" + SI_DIR
+
+
+def share_path(shnum):
+    return "%s/%d" % (BUCKET, shnum)
+
+
+def incoming_path(shnum):
+    return "%s/%d" % (INBUCKET, shnum)
+
+
+def mk_server(readonly=False, reserved=0, clock=None):
+    """A StorageServer built with __new__ (no crawlers, no reactor) on the fake filesystem."""
+    ss = SS.__new__(SS)
+    ss.my_nodeid = NODEID
+    ss.storedir = "/s"
+    ss.sharedir = SHAREDIR
+    ss.incomingdir = INCOMING
+    ss.reserved_space = reserved
+    ss.no_storage = False
+    ss.readonly_storage = readonly
+    ss.stats_provider = None
+    ss.latencies = dict((k, []) for k in ("allocate", "write", "close", "read", "get", "writev", "readv",
+                                          "add-lease", "renew", "cancel"))
+    ss._clock = clock or Clock()
+    ss._bucket_writers = {}
+    ss._call_on_bucket_writer_close = []
+    return ss
+
+
+BASE_DIRS = ("/", "/s", SHAREDIR, INCOMING, SHAREDIR + "/aa", BUCKET)
+
+
+def reset(extra_dirs=()):
+    FS.reset(BASE_DIRS + tuple(extra_dirs))
+
+
+def guard(fn, *args):
+    """Run a harness body; an exception escaping from the code under test becomes a violation string WITHOUT
+    formatting the exception (its arguments may be symbolic: CrossHair cannot str() them outside tracing)."""
+    try:
+        return fn(*args)
+    except hlib.HarnessError:
+        raise
+    except Exception as e:
+        if hlib.REPLAY:
+            return "unexpected exception escaped from the code under test: %r" % (e,)
+        return "unexpected exception escaped from the code under test: " + type(e).__name__
